@@ -23,13 +23,15 @@ from ..tlc import MachineryError, run_tlc
 
 # (cfg, maximum number of files replayed or None = all)
 CFG = {
-    "quick": [("ReaderQuickTree.cfg", None), ("ReaderQuickContent.cfg", None), ("ReaderQuickClasses.cfg", None)],
+    "quick": [("ReaderQuickTree.cfg", None), ("ReaderQuickContent.cfg", None), ("ReaderQuickClasses.cfg", None),
+              ("ReaderQuickPG.cfg", None), ("ReaderQuickDrill.cfg", None)],
     "thorough": [("ReaderQuickTree.cfg", None), ("ReaderQuickContent.cfg", None), ("ReaderQuickClasses.cfg", None),
-                 ("ReaderTree3.cfg", None),
+                 ("ReaderQuickPG.cfg", None), ("ReaderQuickDrill.cfg", None), ("ReaderPG2.cfg", None),
+                 ("ReaderDrill.cfg", None), ("ReaderTree3.cfg", None),
                  ("ReaderClasses.cfg", 600), ("ReaderContent.cfg", 500)],
 }
 FINDING_ROOT = "root-rebuild-reparents-nested-group"
-KINDS = ["pattr", "flat", "rootlink", "entry", "eattr", "typelink", "childcont", "childlink", "dataset",
+KINDS = ["pattr", "flat", "rootlink", "entry", "eattr", "typelink", "childcont", "childlink", "dataset", "cdata",
          "pgcont", "pgblock", "pgattr", "tentry", "tattr", "tmap", "tmapattr"]
 
 
@@ -75,11 +77,14 @@ def _check_intact(fspec, maps, base):
         if got is None or got.get("raises") or got["parent"] != want_parent or got["type"]["uid"] != maps["types"][node["ty"]]:
             raise MachineryError(f"intact file: node {idx} {node} read back as {got}")
     for pidx, pgrp in enumerate(fspec["pgs"], 1):
-        got = base[uid[pgrp["obj"]]]["property_groups"].get(maps["pgs"][pidx])
-        if got is None or got["properties"] != sorted(uid[m] for m in pgrp["members"]):
-            raise MachineryError(f"intact file: property group {pidx} read back as {got}")
-    if len(base) != len(fspec["nodes"]) + 2:
-        raise MachineryError(f"intact file: {len(base)} entities read, {len(fspec['nodes']) + 2} expected")
+        got = base.get(maps["pgs"][pidx])
+        want_name = f"pg{pidx}" if pgrp["named"] else "property_group"
+        if (got is None or got.get("raises") or got["properties"] != sorted(uid[m] for m in pgrp["members"])
+                or got["parent"] != uid[pgrp["obj"]] or got["name"] != want_name):
+            raise MachineryError(f"intact file: property group {pidx} {pgrp} read back as {got}")
+    if len(base) != len(fspec["nodes"]) + 2 + len(fspec["pgs"]):
+        raise MachineryError(f"intact file: {len(base)} entities read, "
+                             f"{len(fspec['nodes']) + 2 + len(fspec['pgs'])} expected")
 
 
 def _judge(case, status, view, base, ent_uid):
@@ -139,6 +144,7 @@ def _replay_file(unit):
     table = rf.match_items(path, maps, unit["items"]) if unit.get("match", True) else None
     ent_uid = {rf.PROJ: "PROJECT"}
     ent_uid.update({int(n): u for n, u in maps["nodes"].items()})
+    ent_uid.update({rf.PG_BASE + int(p): u for p, u in maps["pgs"].items()})
     status, base = rf.open_and_project(path)
     status2, again = rf.open_and_project(path)
     if status != "open" or status2 != "open" or base != again:
